@@ -62,12 +62,23 @@ class HandlerCollection:
 
     current = ContextVar("HandlerCollection.current", default=None)
 
-    def __init__(self, handler_pairs=None):
+    def __init__(self, handler_pairs=None, parent=None):
         self.handler_pairs = list(handler_pairs or [])
+        # The collection of the caller, when this is the collection of an
+        # instrumented call in progress: it is what the call restores when it
+        # returns, so overlays entered or exited during the call update it too
+        self.parent = parent
 
     def plus(self, handler_pairs):
         """Clone this collection with additional (selector, accumulator) pairs."""
-        return type(self)(self.handler_pairs + handler_pairs)
+        return type(self)(self.handler_pairs + handler_pairs, self.parent)
+
+    def enclosing(self):
+        """The collections that enclosing calls will restore when they return."""
+        coll = self.parent
+        while coll is not None:
+            yield coll
+            coll = coll.parent
 
     def proceed(self, fn):
         """Proceed into a call to fn with this collection.
@@ -141,17 +152,32 @@ class proceed:
         self.outer = HandlerCollection.current.get()
         self.curr = self.outer or HandlerCollection([])
         self.interactor, self.inner = self.curr.proceed(self.fn)
+        self.inner.parent = self.curr
         self.interactor.context = self
         self.suspended = False
         HandlerCollection.current.set(self.inner)
         return self.interactor
+
+    def _restore(self):
+        # Normally self.outer, but overlays may have been entered (when there
+        # was no collection at all outside) or exited during the call
+        outer = self.outer
+        if outer is None and self.inner.parent.handler_pairs:
+            outer = self.inner.parent
+        elif (
+            outer is not None
+            and not outer.handler_pairs
+            and outer.parent is None
+        ):
+            outer = None
+        HandlerCollection.current.set(outer)
 
     def suspend(self):
         # A generator is about to yield: give the caller its own collection
         # back, so that it is not treated as running inside the generator.
         if not self.suspended:
             self.suspended = True
-            HandlerCollection.current.set(self.outer)
+            self._restore()
 
     def resume(self):
         # The generator was resumed, possibly from a different place: remember
@@ -159,11 +185,12 @@ class proceed:
         if self.suspended:
             self.suspended = False
             self.outer = HandlerCollection.current.get()
+            self.inner.parent = self.outer or HandlerCollection([])
             HandlerCollection.current.set(self.inner)
 
     def __exit__(self, typ, exc, tb):
         if not self.suspended:
-            HandlerCollection.current.set(self.outer)
+            self._restore()
         self.interactor.exit()
 
 
@@ -198,6 +225,10 @@ class BaseOverlay:
                 collection = HandlerCollection(handlers)
             else:
                 collection = curr.plus(handlers)
+                # Entered during an instrumented call: we stay active after
+                # that call returns
+                for coll in curr.enclosing():
+                    coll.handler_pairs.extend(handlers)
             self._pairs = handlers
             HandlerCollection.current.set(collection)
             return collection
@@ -212,8 +243,19 @@ class BaseOverlay:
             for pair in self._pairs:
                 if pair in pairs:
                     pairs.remove(pair)
+            parent = curr.parent if curr is not None else None
+            # Exited during an instrumented call: the collections restored
+            # when the enclosing calls return must forget our handlers too
+            coll = parent
+            while coll is not None:
+                for pair in self._pairs:
+                    if pair in coll.handler_pairs:
+                        coll.handler_pairs.remove(pair)
+                coll = coll.parent
             HandlerCollection.current.set(
-                HandlerCollection(pairs) if pairs else None
+                HandlerCollection(pairs, parent)
+                if pairs or parent is not None
+                else None
             )
 
 
